@@ -119,6 +119,20 @@ CLAIMED = {
         "Crystals swap optimisation is not modelled (it only exchanges entries, preserving the contract); np.argsort tie "
         "order is treated as nondeterministic; the repaired 0/0 defect is listed as fixed.",
         "DESIGN.md section 3 (C17)"),
+    "C18": (
+        "TLA+ transcription of compute_keypoints / _weighted_quantile model-checked by TLC over all small arrays; real "
+        "results validated by TLC against the contract and the transcription",
+        "TLC enumerates every data array of length <= 3 (5 thorough) over 0..3 with weights {1,2}, clip bounds, default "
+        "value, num_keypoints 2..3(4), both modes and reductions; the model covers default removal, clipping with "
+        "zero-weight sentinels, np.unique with weight merging, the nearest-rank quantile (tie rule left open), the "
+        "midpoint-CDF weighted quantile with np.interp, round-half-even and the repair loop for repeated indices; "
+        "invariants: strictly increasing, within the clipped range, end points, count. The same inputs and random "
+        "arrays (heavy duplicates, skew, constant after clipping) go through the real compute_keypoints, the result "
+        "is offered to PWLCalibration, and TLC validates every event (contract -> VIOLATION, equality with a possible "
+        "spec result -> DRIFT); compute_feature_keypoints through a small config.",
+        "Integer / dyadic data (the function is scale-equivariant); one listed known finding (all data equal to the "
+        "default value with weights: zero total weight); the repaired NumPy keyword defect is listed as fixed.",
+        "DESIGN.md section 3 (C18)"),
     "C19": (
         "TLA+ transcription of custom_reduce_prod's gradient formula checked equal to the product's derivative for "
         "every zero pattern by TLC; real tf.GradientTape gradients validated by TLC",
